@@ -33,7 +33,7 @@ def plan(tier):
 
 @st.composite
 def cases(draw):
-    recipe = draw(gen.problem_recipe(densities=(10, 10, 6, 12)))
+    recipe = draw(gen.problem_recipe(densities=(10, 10, 6, 12), styles=True))
     iters = st.one_of(st.sampled_from([1, 2, 3, 30, 100, 300]), st.integers(5, 300), st.integers(20, 300))
     params = draw(gen.solver_params(recipe["n"], recipe["density"], iters, cheap=False))
     total = draw(st.one_of(st.integers(0, 4), st.integers(5, min(max(5, params["itersLimit"]), 120)),
@@ -43,13 +43,25 @@ def cases(draw):
         ops = ops + ["solve"]
         if draw(st.integers(0, 4)) == 0:
             ops = ops + ["solve"]
-    return {"recipe": recipe, "params": params, "ops": ops, "refine": draw(st.booleans())}
+    case = {"recipe": recipe, "params": params, "ops": ops, "refine": draw(st.booleans())}
+    # with or without a listener attached (a listener makes the solver refresh its Solution at every notification)
+    case["listener"] = draw(st.sampled_from([True, True, False]))
+    # "at every moment": the Solution object obtained after the first call is kept and read again, as it is, after
+    # every later call
+    case["keep"] = draw(st.booleans())
+    # another solver on another problem is created and stepped between the calls
+    if draw(st.integers(0, 2)) == 0:
+        case["decoy"] = draw(gen.problem_recipe(dims=(1, 2, 3), styles=True))
+    return case
 
 
 def body(case):
-    run = Run(case["recipe"], case["params"], refine=case["refine"])
+    listener = case.get("listener", True)
+    run = Run(case["recipe"], case["params"], refine=case["refine"], record=listener)
     prob = run.problem
     obs = []
+    kept = None
+    decoy = None
 
     def snap(where, sol):
         pt, val = best_of(sol)
@@ -61,7 +73,8 @@ def body(case):
         elif kind == "stop":
             snap("inside OnMethodStop", payload[1])
 
-    run.rec.hook = hook
+    if listener:
+        run.rec.hook = hook
     nops = 0
     for op in case["ops"]:
         try:
@@ -75,7 +88,19 @@ def body(case):
                 return False, ["float-resolution-stop"]
             raise
         nops += 1
+        if case.get("decoy") is not None:
+            if decoy is None:
+                decoy = Run(case["decoy"], {"r": 2.5, "eps": 1e-3, "itersLimit": 50}, record=False)
+            try:
+                decoy.step(1)
+            except Exception as e:
+                if "outside of interval" not in str(e):
+                    raise
+        if kept is not None:
+            snap("the Solution object obtained after call 1, read again after call %d (%r)" % (nops, op), kept)
         snap("GetResults() after call %d (%r)" % (nops, op), run.results())
+        if kept is None and case.get("keep"):
+            kept = run.results()
     for where, pt, val, nlog in obs:
         check_reported_best(pt, val, prob.log[:nlog], prob, who=where + ": ")
     # how often did the best value change?
@@ -86,7 +111,8 @@ def body(case):
             cur = v
     vals = [v for _, _, v in prob.log]
     equal_min = sum(1 for v in vals if v == min(vals))
-    classes = ["N=%d" % run.n, "refine=%s" % case["refine"], "observations=%d+" % min(len(obs), 6) if len(obs) >= 6
+    classes = ["N=%d" % run.n, "refine=%s" % case["refine"], "listener=%s" % listener,
+               "kept-solution" if kept is not None else "no-kept-solution", "decoy" if decoy is not None else "no-decoy", "observations=%d+" % min(len(obs), 6) if len(obs) >= 6
                else "observations<6"]
     if equal_min > 1:
         classes.append("several-equal-minima")
